@@ -32,6 +32,10 @@ var ExtraConfig = []Seed{
 	{"escapes", "a = \"\\n\\t\\\"\\\\\\u00e9\\U0001F600$${x}%%{y}\"\n"},
 	{"parens", "a = (\n1 +\n2\n)\n"},
 	{"null-bool", "a = [null, true, false]\n"},
+	{"index-keyword-keys", "a = foo[true]\nb = foo[null].x\nc = foo[false][0]\n"},
+	{"comment-in-block-header", "blk /* c1 */ \"l\" /* c2 */ {\n  a = 1\n}\n"},
+	{"index-empty-string", "a = foo[\"\"]\nb = \"${foo[\"\"]}\"\n"},
+	{"splat-legacy", "a = foo.*.bar.0\nb = foo.*.0\n"},
 }
 
 var ExtraTemplate = []Seed{
